@@ -47,6 +47,9 @@ class Tables:
         self.vkeys = []
         self.ekinds = [expressions.Constant, expressions.KeywordConstant, expressions.Function,
                        expressions.GetContextValue, expressions.Wrap, expressions.MappingRuleExpression]
+        for c in vars(expressions).values():        # every other expression class of the module, fixed order
+            if isinstance(c, type) and issubclass(c, expressions.Expression) and c not in self.ekinds:
+                self.ekinds.append(c)
         for c in (object, type(utils.NO_VALUE), utils.MappingRule):
             self.cls(c)
 
@@ -137,10 +140,10 @@ TYPE_SPECS = {
     'StringConstant': lambda: yaqltypes.StringConstant(), 'NumericConstant': lambda: yaqltypes.NumericConstant(),
     'BooleanConstant': lambda: yaqltypes.BooleanConstant(), 'Keyword': lambda: yaqltypes.Keyword(),
     'Context': lambda: yaqltypes.Context(), 'Engine': lambda: yaqltypes.Engine(),
-    'Receiver': lambda: yaqltypes.Receiver(),
+    'Receiver': lambda: yaqltypes.Receiver(), 'YaqlInterface': lambda: yaqltypes.YaqlInterface(),
     'Iterable': lambda: yaqltypes.Iterable(), 'Sequence': lambda: yaqltypes.Sequence(),
 }
-HIDDEN_SPECS = ('Context', 'Engine', 'Receiver')
+HIDDEN_SPECS = ('Context', 'Engine', 'Receiver', 'YaqlInterface')
 LAZY_SPECS = ('Lambda', 'LambdaM', 'MappingRule', 'YaqlExpression', 'YaqlExpressionF')
 
 
@@ -169,13 +172,20 @@ class Unsupported(Exception):
     pass
 
 
+def expression_kinds(vt):
+    """the expression classes a YaqlExpression smart type accepts, found out through its public `check`
+    on one blank instance of every known expression class ([] = every Expression)"""
+    ks = [i for i, c in enumerate(T.ekinds) if vt.check(c.__new__(c), None, None)]
+    return [] if len(ks) == len(T.ekinds) else ks
+
+
 def enc_type(vt):
     if isinstance(vt, yaqltypes.Lambda):
         return dict(t='lambda', m=bool(vt.method))
     if isinstance(vt, yaqltypes.MappingRule):
         return dict(t='mr')
     if isinstance(vt, yaqltypes.YaqlExpression):
-        return dict(t='ye', ks=[T.ekind(k) for k in (vt._expression_types or ())])
+        return dict(t='ye', ks=expression_kinds(vt))
     if isinstance(vt, yaqltypes.Keyword):
         return dict(t='kw')
     if isinstance(vt, yaqltypes.Constant):
@@ -256,7 +266,23 @@ def enc_arg(a, pr):
     return dict(k='v', v=T.val(a))
 
 
+_ENC_FD = {}
+
+
 def enc_fd(fd, fid):
+    """the definition as the model reads it; cached per definition object (definitions are not mutated by the
+    harness after they were built)"""
+    c = _ENC_FD.get(id(fd))
+    if c is not None and c[0] is fd and c[1] == fid:
+        return c[2]
+    if len(_ENC_FD) > 20000:
+        _ENC_FD.clear()
+    d = _enc_fd(fd, fid)
+    _ENC_FD[id(fd)] = (fd, fid, d)
+    return d
+
+
+def _enc_fd(fd, fid):
     ps = []
     for key, p in fd.parameters.items():
         ps.append({'key': key, 'name': p.name, 'alias': p.alias or None, 'pos': p.position,
@@ -276,8 +302,12 @@ def tick(id, value):
     return value
 
 
-def make_payload(fid, params, defaults):
-    """params: [{name, kind: pos|star|kwonly|starstar, default?: key into `defaults`}]"""
+PAYLOAD_MODULE = 'yaqlgen_payloads'      # every generated payload lives in this (virtual) module
+_FACTORIES = {}
+
+
+def signature_text(params):
+    """params: [{name, kind: pos|star|kwonly|starstar, default?}] -> the text between the parentheses"""
     sig = []
     star_seen = False
     for p in params:
@@ -295,10 +325,60 @@ def make_payload(fid, params, defaults):
             sig.append(n + d)
         else:
             sig.append('**' + n)
-    src = 'def payload(%s):\n    REC.append((FID, dict(locals())))\n    return FID\n' % ', '.join(sig)
-    env = dict(REC=REC, FID=fid, DEFAULTS=defaults)
-    exec(src, env)
-    return env['payload']
+    return ', '.join(sig)
+
+
+_CODE = {}
+
+
+def _compiled(src):
+    c = _CODE.get(src)
+    if c is None:
+        if len(_CODE) > 4000:
+            _CODE.clear()
+        c = _CODE[src] = compile(src, '<generated payload>', 'exec')
+    return c
+
+
+def make_payload(fid, params, defaults, style='def', pyname='payload'):
+    """a real Python callable with the given signature that records what it received and returns its tag.
+    style: 'def' (module-level function) | 'factory' (closure of ONE factory per signature: all its closures
+    share code, __module__ and __qualname__) | 'lambda' | 'classfn' (function of a class made by one factory)"""
+    sig = signature_text(params)
+    if style == 'def':
+        src = 'def %s(%s):\n    REC.append((FID, dict(locals())))\n    return FID\n' % (pyname, sig)
+        env = dict(REC=REC, FID=fid, DEFAULTS=defaults, __name__=PAYLOAD_MODULE)
+        exec(_compiled(src), env)
+        return env[pyname]
+    if style == 'lambda':
+        src = 'payload = lambda %s: (REC.append((FID, dict(locals()))), FID)[1]\n' % sig
+        env = dict(REC=REC, FID=fid, DEFAULTS=defaults, __name__=PAYLOAD_MODULE)
+        exec(_compiled(src), env)
+        return env['payload']
+    key = (style, sig, pyname)
+    if key not in _FACTORIES:
+        if style == 'factory':
+            src = ('def make(FID, DEFAULTS):\n'
+                   '    def %s(%s):\n'
+                   '        REC.append((FID, dict(locals())))\n'
+                   '        return FID\n'
+                   '    return %s\n') % (pyname, sig, pyname)
+        elif style == 'classfn':
+            src = ('def make(FID, DEFAULTS):\n'
+                   '    class Holder:\n'
+                   '        @staticmethod\n'
+                   '        def %s(%s):\n'
+                   '            REC.append((FID, dict(locals())))\n'
+                   '            return FID\n'
+                   '    return Holder.%s\n') % (pyname, sig, pyname)
+        else:
+            raise ValueError(style)
+        env = dict(REC=REC, __name__=PAYLOAD_MODULE)
+        exec(src, env)
+        _FACTORIES[key] = env['make']
+        if len(_FACTORIES) > 4000:
+            _FACTORIES.pop(next(iter(_FACTORIES)))
+    return _FACTORIES[key](fid, defaults)
 
 
 def value_of(vs):
@@ -312,26 +392,309 @@ def value_of(vs):
     return None
 
 
-def build_fd(ospec, convention=None):
-    """ospec: {id, kind: function|method|extension, nk, params:[{name, kind, default?: valuespec,
-    ty: typespec, alias?}]} -> FunctionDefinition (via the real decorators and get_function_definition)"""
-    defaults = {p['name']: value_of(p['default']) for p in ospec['params'] if 'default' in p}
-    f = make_payload(ospec['id'], ospec['params'], defaults)
+# An overload spec (`ospec`) is a Python SIGNATURE plus decorators:
+#   {id, kind: function|method|extension, nk, fname?, x?,
+#    params: [{name, kind: pos|star|kwonly|starstar, default?: valuespec, ty: typespec, alias?, nullable?,
+#              byname?: hidden through its NAME (no decorator), byindex?: decorated by position}],
+#    py?: {style: def|factory|lambda|classfn, dseed: decorators applied in an order shuffled by this seed,
+#          via: fd | fdconv | callable, nameby: arg | deco | pyname, meta: value?}}
+# typespec: None (undeclared) | 'String' .. (a smart type object is handed to the decorator) |
+#           ['py', cls, nullable] (PythonType object) | ['cls', cls, nullable|None] (the bare Python class)
+
+HIDDEN_BY_NAME = {'context': yaqltypes.Context, '__context': yaqltypes.Context,
+                  'engine': yaqltypes.Engine, '__engine': yaqltypes.Engine,
+                  'yaql_interface': yaqltypes.YaqlInterface, '__yaql_interface': yaqltypes.YaqlInterface}
+
+
+def _py(ospec):
+    return ospec.get('py') or {}
+
+
+def py_name(ospec):
+    """the Python name of the payload function"""
+    if _py(ospec).get('nameby') == 'pyname' and _py(ospec).get('style', 'def') != 'lambda':
+        return ospec.get('fname', 'f') + '_' * _py(ospec).get('underscores', 1)
+    return 'payload'
+
+
+def decorator_list(ospec):
+    """the decorators of the overload as (label, decorator, declaration) in the order they are applied
+    (innermost first); declaration: what a parameter decorator passes to set_parameter, as data"""
+    ds = []
+    pos = 0
+    npos = sum(1 for p in ospec['params'] if p['kind'] == 'pos')
     for p in ospec['params']:
-        ty = make_type(p.get('ty'))
-        if ty is None and 'alias' not in p:
+        index = pos if p['kind'] == 'pos' else npos if p['kind'] == 'star' else None
+        if p['kind'] == 'pos':
+            pos += 1
+        if p.get('byname'):
             continue
+        ts = p.get('ty')
+        if ts is None and 'alias' not in p and p.get('nullable') is None:
+            continue
+        ref = index if p.get('byindex') and index is not None else p['name']
+        decl = dict(alias=p.get('alias'))
+        decl['index' if isinstance(ref, int) else 'name'] = ref
+        if isinstance(ts, (list, tuple)) and ts[0] == 'cls':
+            decl.update(ty=dict(cls=LATTICE[ts[1]]), nullable=ts[2])
+            ds.append(('parameter:' + p['name'],
+                       specs.parameter(ref, LATTICE[ts[1]], nullable=ts[2], alias=p.get('alias')), decl))
+            continue
+        ty = make_type(ts)
         if isinstance(ty, yaqltypes.HiddenParameterType):
-            f = specs.inject(p['name'], ty, alias=p.get('alias'))(f)
+            decl.update(ty=dict(smart=ty), nullable=None)
+            ds.append(('inject:' + p['name'], specs.inject(ref, ty, alias=p.get('alias')), decl))
         else:
-            f = specs.parameter(p['name'], ty, alias=p.get('alias'))(f)
+            decl.update(ty=None if ty is None else dict(smart=ty), nullable=p.get('nullable'))
+            ds.append(('parameter:' + p['name'], specs.parameter(ref, ty, nullable=p.get('nullable'),
+                                                               alias=p.get('alias')), decl))
     if ospec['kind'] == 'method':
-        f = specs.method(f)
+        ds.append(('method', specs.method, None))
     elif ospec['kind'] == 'extension':
-        f = specs.extension_method(f)
+        ds.append(('extension_method', specs.extension_method, None))
     if ospec.get('nk'):
-        f = specs.no_kwargs(f)
-    return specs.get_function_definition(f, name=ospec.get('fname', 'f'), convention=convention)
+        ds.append(('no_kwargs', specs.no_kwargs, None))
+    if _py(ospec).get('nameby') == 'deco':
+        ds.append(('name', specs.name(ospec.get('fname', 'f')), None))
+    if 'meta' in _py(ospec):
+        ds.append(('meta', specs.meta('category', _py(ospec)['meta']), None))
+    if _py(ospec).get('dseed') is not None:
+        import random
+        random.Random(_py(ospec)['dseed']).shuffle(ds)
+    return ds
+
+
+def sig_request(ospec, convention):
+    """the Python signature and the decorators of an overload, as the Lean model of get_function_definition
+    (`Yaql.Signature.define`) reads them"""
+    ps = ospec['params']
+    args = [p for p in ps if p['kind'] == 'pos']
+    kwonly = [p for p in ps if p['kind'] == 'kwonly']
+    star = [p['name'] for p in ps if p['kind'] == 'star']
+    sstar = [p['name'] for p in ps if p['kind'] == 'starstar']
+    decls = []
+    for _, _, d in decorator_list(ospec):
+        if d is None:
+            continue
+        d = dict(d)
+        if d['ty'] is not None:
+            d['ty'] = dict(cls=T.cls(d['ty']['cls'])) if 'cls' in d['ty'] else dict(smart=enc_type(d['ty']['smart']))
+        decls.append(d)
+    conv = None
+    if convention:
+        conv = [[p['name'], camel_case(p['name'].rstrip('_'))] for p in ps]
+    return dict(args=[p['name'] for p in args],
+                defaults=[enc_arg(value_of(p['default']), None) for p in args if 'default' in p],
+                varargs=star[0] if star else None, kwonly=[p['name'] for p in kwonly],
+                kwdefaults=[[p['name'], enc_arg(value_of(p['default']), None)] for p in kwonly if 'default' in p],
+                varkw=sstar[0] if sstar else None, decls=decls, conv=conv)
+
+
+def ask_tables(drv, items):
+    """items: [(ospec, convention, real FunctionDefinition)] -> [(ospec, differences)] where the table of the Lean
+    model of get_function_definition differs from the definition yaql built"""
+    if not drv or not items:
+        return []
+    out = drv.ask(dict(p='Resolve', op='sig', lat=T.lattice(), consts=sig_consts(),
+                       sigs=[sig_request(o, conv) for o, conv, _ in items]))['out']
+    bad = []
+    for (o, conv, fd), m in zip(items, out):
+        d = table_vs_model(fd, m)
+        if d:
+            bad.append((o, d))
+    return bad
+
+
+def sig_consts():
+    return dict(object=T.cls(object), vTrue=T.validator(yaqltypes.PythonType(object).validators[0]))
+
+
+def _norm_default(d):
+    if d is None:
+        return None
+    if d['k'] == 'nv':
+        return ['nv']
+    v = d.get('v')
+    return [d['k'], None if v is None else [v['c'], v['t']]]
+
+
+def table_vs_model(fd, m):
+    """the real FunctionDefinition against the table of the Lean model, in dict order -> list of differences"""
+    if 'err' in m:
+        return ['the model refuses the declarations (%s), yaql built a definition' % m['err']]
+    real = enc_fd(fd, 0)['ps']
+    if [p['key'] for p in real] != [p['key'] for p in m['ps']]:
+        return ['parameter keys in dict order: real %r, model %r' % ([p['key'] for p in real], [p['key'] for p in m['ps']])]
+    out = []
+    for r, q in zip(real, m['ps']):
+        for what in ('name', 'alias', 'pos', 'ty'):
+            if r[what] != q[what]:
+                out.append('%s.%s: real %r, model %r' % (r['key'], what, r[what], q[what]))
+        if _norm_default(r['def']) != _norm_default(q['def']):
+            out.append('%s.default: real %r, model %r' % (r['key'], r['def'], q['def']))
+    return out
+
+
+def build_callable(ospec):
+    """the decorated Python callable of an overload spec"""
+    defaults = {p['name']: value_of(p['default']) for p in ospec['params'] if 'default' in p}
+    f = make_payload(ospec['id'], ospec['params'], defaults, _py(ospec).get('style', 'def'), py_name(ospec))
+    for _, d, _ in decorator_list(ospec):
+        f = d(f)
+    return f
+
+
+def name_arg(ospec):
+    """the `name=` argument of register_function / get_function_definition (None: taken from the decorator or
+    from the Python name of the function)"""
+    return ospec.get('fname', 'f') if _py(ospec).get('nameby', 'arg') == 'arg' else None
+
+
+def uses_convention(ospec):
+    """is the definition made with the naming convention of the context (CamelCase for the harness's contexts)"""
+    return _py(ospec).get('via', 'fd') in ('callable', 'fdconv')
+
+
+def build_fd(ospec, convention=None):
+    """ospec -> FunctionDefinition (via the real decorators and get_function_definition)"""
+    f = build_callable(ospec)
+    if _py(ospec).get('via') == 'fdconv' and convention is None:
+        convention = ROOT.convention
+    return specs.get_function_definition(f, name=name_arg(ospec), convention=convention)
+
+
+# ---------------------------------------------------------------- the definition the documented rules prescribe
+# doc/source/extending_yaql.rst ("Extending yaql with new functions", "Specifying function parameter types",
+# "Auto-injected function parameters", "Automatic parameters", "Naming conventions") + the docstring-level contract of
+# specs.parameter / inject / method / extension_method / no_kwargs / name / meta, derived from the overload SPEC
+# alone - no yaql function is asked what it made of the Python callable.
+
+class ExpParam:
+    __slots__ = ('name', 'alias', 'position', 'default', 'value_type')
+
+    def __init__(self, name, alias, position, default, value_type):
+        self.name, self.alias, self.position, self.default, self.value_type = name, alias, position, default, value_type
+
+
+class ExpFD:
+    """the expected FunctionDefinition: duck-typed for spec_resolve / enc_fd"""
+    __slots__ = ('parameters', 'is_function', 'is_method', 'no_kwargs', 'name', 'meta', 'tag')
+
+    def __init__(self, tag):
+        self.parameters = {}
+        self.tag = tag
+
+
+def camel_case(name):
+    """CamelCaseConvention: every `_x` that is not at the start becomes `X`"""
+    out = []
+    i = 0
+    while i < len(name):
+        c = name[i]
+        if c == '_' and i > 0 and i + 1 < len(name) and (name[i + 1].isalnum() or name[i + 1] == '_'):
+            out.append(name[i + 1].upper())
+            i += 2
+        else:
+            out.append(c)
+            i += 1
+    return ''.join(out)
+
+
+def expected_type(p, default):
+    ts = p.get('ty')
+    if p.get('byname'):
+        return HIDDEN_BY_NAME[p['name']]()
+    if ts is None:
+        plain = default is None or default is specs.NO_DEFAULT or default is utils.NO_VALUE
+        nullable = p.get('nullable')
+        return yaqltypes.PythonType(object if plain else type(default), True if nullable is None else nullable)
+    if isinstance(ts, (list, tuple)) and ts[0] == 'cls':
+        return yaqltypes.PythonType(LATTICE[ts[1]], ts[2] if ts[2] is not None else default is None)
+    return make_type(ts)            # a smart type is taken as it is (a `nullable=` next to it is ignored)
+
+
+def expected_fd(ospec, convention=None):
+    """convention: None (definition prepared without one) | True (the context's CamelCaseConvention)"""
+    if convention is None:
+        convention = uses_convention(ospec)
+    e = ExpFD(ospec['id'])
+    npos = sum(1 for p in ospec['params'] if p['kind'] == 'pos')
+    pos = 0
+    for p in ospec['params']:
+        kind = p['kind']
+        name = p['name']
+        if kind == 'pos':
+            key, position = name, pos
+            pos += 1
+        elif kind == 'star':
+            key, position = '*', npos
+        elif kind == 'kwonly':
+            key, position = name, None
+        else:
+            key, position = '**', None
+        default = value_of(p['default']) if 'default' in p and kind in ('pos', 'kwonly') else specs.NO_DEFAULT
+        alias = p.get('alias')
+        if alias is None and convention:
+            alias = camel_case(name.rstrip('_'))
+        e.parameters[key] = ExpParam(name, alias, position, default, expected_type(p, default))
+    e.is_function = ospec['kind'] in ('function', 'extension')
+    e.is_method = ospec['kind'] in ('method', 'extension')
+    e.no_kwargs = bool(ospec.get('nk'))
+    e.name = ospec.get('fname', 'f')
+    e.meta = {'category': _py(ospec)['meta']} if 'meta' in _py(ospec) else {}
+    return e
+
+
+def _same_default(a, b):
+    if a is b:
+        return True
+    if a is specs.NO_DEFAULT or b is specs.NO_DEFAULT or a is utils.NO_VALUE or b is utils.NO_VALUE:
+        return False
+    return type(a) is type(b) and a == b
+
+
+def table_diff(fd, exp):
+    """how the FunctionDefinition yaql built differs from the expected one -> list of strings"""
+    out = []
+    for what in ('name', 'is_function', 'is_method', 'no_kwargs'):
+        if getattr(fd, what) != getattr(exp, what):
+            out.append('%s: real %r, documented %r' % (what, getattr(fd, what), getattr(exp, what)))
+    # (fd.meta is not compared: what the metadata dictionary holds does not enter resolution)
+    if set(fd.parameters) != set(exp.parameters):
+        out.append('parameter keys: real %r, documented %r' % (sorted(fd.parameters), sorted(exp.parameters)))
+        return out
+    for key, e in exp.parameters.items():
+        r = fd.parameters[key]
+        if r.name != e.name:
+            out.append('%s.name: real %r, documented %r' % (key, r.name, e.name))
+        if (r.alias or None) != (e.alias or None):
+            out.append('%s.alias: real %r, documented %r' % (key, r.alias, e.alias))
+        if r.position != e.position:
+            out.append('%s.position: real %r, documented %r' % (key, r.position, e.position))
+        if not _same_default(r.default, e.default):
+            out.append('%s.default: real %r, documented %r' % (key, r.default, e.default))
+        try:
+            rt, et = enc_type(r.value_type), enc_type(e.value_type)
+        except Unsupported:
+            rt, et = type(r.value_type).__name__, type(e.value_type).__name__
+        if rt != et:
+            out.append('%s.value_type: real %s %r, documented %s %r' % (
+                key, type(r.value_type).__name__, rt, type(e.value_type).__name__, et))
+    return out
+
+
+def register_callable(ctx, f, reg_name, def_name, exclusive):
+    """ctx.register_function(<python callable>[, name=reg_name], exclusive=..) -> the FunctionDefinition the
+    context made of it, found through the public get_functions (what is there under the documented name
+    `def_name` afterwards and was not before); None when nothing new is there.
+    InvalidMethodException passes through."""
+    before = list(ctx.get_functions(def_name)[0])
+    if reg_name is None:
+        ctx.register_function(f, exclusive=exclusive)
+    else:
+        ctx.register_function(f, name=reg_name, exclusive=exclusive)
+    new = [fd for fd in ctx.get_functions(def_name)[0] if not any(fd is x for x in before)]
+    return new[0] if len(new) == 1 else None
 
 
 ENGINE = factory.YaqlFactory().create()
@@ -354,47 +717,150 @@ class ListContext(contexts.Context):
         return [fd for fd in order if fd in s], excl
 
 
-class Family:
-    """layers: [{fns: [ospec], x: bool}] nearest first.  Builds root <- tick layer <- layer[n-1] <- .. <- layer[0].
-    An overload is registered with exclusive=True when its layer has `x` or the ospec itself has `x`
-    (only some registrations of a layer saying so).  `reg_order`: [(layer index, overload id)] - the order of the
-    register_function calls (default: layer by layer from the outermost, each in list order); `fds`: overload
-    id -> FunctionDefinition objects to reuse instead of building new ones."""
+def _base_context():
+    ctx = ROOT.create_child_context()
+    ctx.register_function(tick, name='tick')
+    for i, v in enumerate(CORPUS):
+        ctx['$v%d' % i] = v
+    return ctx
 
-    def __init__(self, layers, ordered=False, reg_order=None, fds=None):
+
+class Family:
+    """layers: [{fns: [ospec], x: bool, shape?}] nearest first.  Builds root <- tick layer <- layer[n-1] <- .. <- layer[0].
+    A layer is one context: a plain Context (default), a LinkedContext over a parentless Context that holds the
+    overloads (shape {'k': 'linked'}), or a MultiContext whose members' overload sets make up the layer (shape
+    {'k': 'multi', 'n': members, 'split': [member of the j-th overload], 'morder': order of the members in the
+    MultiContext, 'mparents': 'first' | 'all'}).
+    An overload is registered with exclusive=True when its layer has `x` or the ospec itself has `x` (only some
+    registrations of a layer saying so).  `reg_order`: [(layer index, overload id)] - the order of the
+    register_function calls (default: layer by layer from the outermost, each in list order); `reuse`: a Family
+    whose FunctionDefinition objects / Python callables are registered again instead of building new ones.
+    The family keeps its OWN record of what was registered where (never reads yaql's state): `held`, `excl`,
+    and per overload the definition the documented rules prescribe (`exp`)."""
+
+    def __init__(self, layers, ordered=False, reg_order=None, reuse=None):
         self.spec = layers
         self.fds = {}           # fid -> FunctionDefinition
+        self.exp = {}           # fid -> ExpFD (what the documented rules make of the Python callable)
+        self.callables = {}     # fid -> the decorated Python callable (overloads registered as callables)
+        self.prepared = {}      # fid -> FunctionDefinition prepared by get_function_definition
         self.invalid = []       # fids that register_function rejected
+        self.table_fails = []   # (fid, [differences between the real and the documented definition])
+        self.ordered = ordered
         cls = ListContext if ordered else contexts.Context
-        ctx = ROOT.create_child_context()
-        ctx.register_function(tick, name='tick')
-        for i, v in enumerate(CORPUS):
-            ctx['$v%d' % i] = v
-        self.ctxs = []
-        for layer in reversed(layers):
-            ctx = cls(ctx)
-            self.ctxs.insert(0, ctx)
+        ctx = _base_context()
+        n = len(layers)
+        self.layer_ctx = [None] * n     # the context that makes up the layer
+        self.first_member = {}
+        self.members = [None] * n       # the plain contexts behind it
+        # the same construction as the model is told it (the tick / root layers below hold no overload of the name)
+        self.msteps = []
+        self.handle = {}                # id(context object) -> handle
+        prev = None
+
+        def new(step, obj):
+            self.msteps.append(step)
+            self.handle[id(obj)] = len(self.handle)
+            return obj
+
+        def plain(parent_obj, parent_handle):
+            c = cls(parent_obj, convention=ROOT.convention)
+            return new(dict(k='root') if parent_handle is None else dict(k='child', i=parent_handle), c)
+        for li in reversed(range(n)):
+            shape = layers[li].get('shape') or {}
+            k = shape.get('k', 'plain')
+            ph = None if prev is None else self.handle[id(prev)]
+            if k == 'linked':
+                target = new(dict(k='root'), cls(convention=ROOT.convention))
+                ctx = new(dict(k='linked', p=ph, t=self.handle[id(target)]), contexts.LinkedContext(ctx, target))
+                self.members[li] = [target]
+            elif k == 'multi':
+                nm = max(1, shape.get('n', 2))
+                ms = []
+                for j in range(nm):
+                    if j == 0 or shape.get('mparents') == 'all':
+                        ms.append(plain(ctx, ph))
+                    else:
+                        ms.append(new(dict(k='root'), cls(convention=ROOT.convention)))
+                order = [j for j in shape.get('morder', range(nm)) if j < nm]
+                order += [j for j in range(nm) if j not in order]
+                ctx = new(dict(k='multi', ms=[self.handle[id(ms[j])] for j in order]),
+                          contexts.MultiContext([ms[j] for j in order]))
+                self.members[li] = ms
+                self.first_member[li] = order[0]
+            else:
+                ctx = plain(ctx, ph)
+                self.members[li] = [ctx]
+            self.layer_ctx[li] = ctx
+            prev = ctx
+        self.ctxs = self.layer_ctx
         self.ctx = ctx
+        self.held = [[] for _ in layers]
+        self.member_of = {}
+        self.excl = [False] * n
         if reg_order is None:
-            reg_order = [(li, o['id']) for li in reversed(range(len(layers))) for o in layers[li]['fns']]
-        by_id = {(li, o['id']): o for li, layer in enumerate(layers) for o in layer['fns']}
+            reg_order = [(li, o['id']) for li in reversed(range(n)) for o in layers[li]['fns']]
+        by_id = {(li, o['id']): (j, o) for li, layer in enumerate(layers) for j, o in enumerate(layer['fns'])}
         for li, fid in reg_order:
-            o = by_id[(li, fid)]
-            fd = fds[fid] if fds and fid in fds else build_fd(o)
-            try:
-                self.ctxs[li].register_function(fd, exclusive=bool(layers[li].get('x')) or bool(o.get('x')))
-            except exceptions.InvalidMethodException:
-                self.invalid.append(fid)
-                continue
-            self.fds[fid] = fd
+            j, o = by_id[(li, fid)]
+            self._register(li, j, o, reuse)
         if ordered:
             for li, layer in enumerate(layers):
-                self.ctxs[li].order['f'] = [self.fds[o['id']] for o in layer['fns'] if o['id'] in self.fds]
+                self.set_order(li, [o['id'] for o in layer['fns']])
+
+    def _target(self, li, j, o):
+        """the context object register_function is called on, and the member that ends up holding the overload"""
+        shape = self.spec[li].get('shape') or {}
+        k = shape.get('k', 'plain')
+        if k == 'linked':
+            return (self.layer_ctx[li] if o['id'] % 2 == 0 else self.members[li][0]), 0
+        if k == 'multi':
+            split = shape.get('split') or []
+            mi = split[j] % len(self.members[li]) if j < len(split) else 0
+            if mi == self.first_member[li] and o['id'] % 2 == 0:
+                return self.layer_ctx[li], mi          # MultiContext.register_function goes to its first member
+            return self.members[li][mi], mi
+        return self.layer_ctx[li], 0
+
+    def _register(self, li, j, o, reuse):
+        fid = o['id']
+        x = bool(self.spec[li].get('x')) or bool(o.get('x'))
+        ctx, mi = self._target(li, j, o)
+        known = reuse is not None and fid in reuse.exp
+        exp = reuse.exp[fid] if known else expected_fd(o)
+        try:
+            if _py(o).get('via') == 'callable':
+                f = reuse.callables[fid] if reuse is not None and fid in reuse.callables else build_callable(o)
+                self.callables[fid] = f
+                fd = register_callable(ctx, f, name_arg(o), exp.name, x)
+                if fd is None:
+                    self.table_fails.append((fid, ['no new definition under the documented name %r after '
+                                                   'register_function' % exp.name]))
+                    return
+            else:
+                fd = reuse.fds[fid] if reuse is not None and fid in reuse.fds else build_fd(o)
+                ctx.register_function(fd, exclusive=x)
+        except exceptions.InvalidMethodException:
+            self.invalid.append(fid)
+            return
+        self.fds[fid] = fd
+        self.exp[fid] = exp
+        self.held[li].append(fid)
+        self.msteps.append(dict(k='reg', i=self.handle[id(ctx)], name=exp.name, fid=fid, x=x))
+        self.member_of[fid] = mi
+        self.excl[li] = self.excl[li] or x
+        d = table_diff(fd, exp) if not (known and fd is reuse.fds.get(fid)) else None
+        if d:
+            self.table_fails.append((fid, d))
 
     def layer_exclusive(self, li):
         """the layer is exclusive for the name when ANY accepted registration said so"""
-        layer = self.spec[li]
-        return any(bool(layer.get('x')) or bool(o.get('x')) for o in layer['fns'] if o['id'] in self.fds)
+        return self.excl[li]
+
+    def chain(self, name='f'):
+        """the harness's record: [(documented definitions held by the layer under `name`, exclusive)] nearest first"""
+        return [([self.exp[f] for f in self.held[li] if self.exp[f].name == name], self.excl[li])
+                for li in range(len(self.spec))]
 
     def enc_layers(self):
         out = []
@@ -406,67 +872,117 @@ class Family:
             out.append(dict(fs=fs, x=self.layer_exclusive(li)))
         return out
 
+    def model_hist(self, calls):
+        """the construction, the registrations in the order they were made and the calls from the nearest
+        context, as a history for the model (`Yaql.ResolveCtx.run` / `resolveIn`)"""
+        top = self.handle[id(self.ctx)]
+        return dict(defs=[enc_fd(fd, i) for i, fd in sorted(self.fds.items())],
+                    steps=self.msteps + [dict(k='call', i=top, name='f', call=c.enc()) for c in calls])
+
+    def sig_items(self):
+        return [(o, uses_convention(o), self.fds[o['id']]) for l in self.spec for o in l['fns'] if o['id'] in self.fds]
+
     def set_order(self, layer_index, fids):
-        self.ctxs[layer_index].order['f'] = [self.fds[i] for i in fids if i in self.fds]
+        """the enumeration order of a layer: every plain context behind it enumerates its own overloads in the
+        order they have in `fids`"""
+        for mi, m in enumerate(self.members[layer_index]):
+            m.order['f'] = [self.fds[i] for i in fids if i in self.fds and self.member_of.get(i) == mi]
 
 
 class History:
-    """A forest of real Contexts driven step by step through the public API (create_child_context,
-    register_function, delete_function, runner.call).  Keeps its OWN record of what the API was told - which
-    overloads each context holds under which name and for which names some registration said exclusive=True
-    (delete_function drops the overload and the name's flag, as Context does) - and never reads yaql's state.
-    steps: ['root'] | ['child', i] | ['reg', i, fid, exclusive] | ['del', i, fid] | ['call', i, cspec, name]
-    defs: {fid: ospec}; the same fid always means the same FunctionDefinition object."""
+    """A forest of real contexts driven step by step through the public API (Context / MultiContext /
+    LinkedContext constructors, create_child_context, register_function, delete_function, runner.call).  Keeps
+    its OWN record (`ctxrecord.Forest`) of what the API was told - which definitions each plain context holds
+    under which name and for which names some registration said exclusive=True (delete_function drops the
+    definition and the name's flag, as Context does) - and never reads yaql's state.
+    steps: ['root'] | ['child', i] | ['multi', [i, ..]] | ['linked', parent | None, target] |
+           ['reg', i, fid, exclusive]              the prepared FunctionDefinition of overload fid (one object per fid)
+           ['regc', i, fid, exclusive, did]        the Python CALLABLE of overload fid (one object per fid) is handed
+                                                   to register_function; the definition made of it is `did`
+           ['del', i, did] | ['call', i, cspec, name]
+    defs: {fid: ospec}.  Definition ids: did = fid for prepared definitions."""
 
     def __init__(self, defs, cls=None):
+        import ctxrecord
         self.defs = {int(k): v for k, v in defs.items()}
         self.cls = cls or contexts.Context
-        self.fds = {}
-        base = ROOT.create_child_context()
-        base.register_function(tick, name='tick')
-        for i, v in enumerate(CORPUS):
-            base['$v%d' % i] = v
-        self.base = base
+        self.fds = {}           # did -> FunctionDefinition
+        self.exp = {}           # did -> ExpFD
+        self.tag = {}           # did -> fid (the tag its payload returns)
+        self.by_tag = {}        # fid -> some FunctionDefinition with that payload
+        self.conv = {}          # did -> made with the naming convention
+        self.callables = {}
+        self.base = _base_context()
         self.ctxs = []
-        self.parent = []
-        self.held = []          # per context: [fid] in registration order
-        self.excl = []          # per context: set of names
+        self.rec = ctxrecord.Forest()
         self.msteps = []        # the steps as the model is told them
         self.invalid = []
+        self.table_fails = []
+
+    def callable_of(self, fid):
+        """ONE Python callable per overload spec: prepared definitions and register_function(<callable>) calls all
+        start from the same decorated function object"""
+        if fid not in self.callables:
+            self.callables[fid] = build_callable(self.defs[fid])
+        return self.callables[fid]
 
     def fd(self, fid):
         if fid not in self.fds:
-            self.fds[fid] = build_fd(self.defs[fid])
+            o = self.defs[fid]      # a PREPARED definition: the convention only when it was asked for
+            conv = _py(o).get('via') == 'fdconv'
+            fd = specs.get_function_definition(self.callable_of(fid), name=name_arg(o),
+                                               convention=ROOT.convention if conv else None)
+            self._new_def(fid, fid, fd, expected_fd(o, convention=conv), conv)
         return self.fds[fid]
 
-    def fname(self, fid):
-        return self.defs[fid].get('fname', 'f')
+    def recheck_tables(self):
+        """at the end: every definition still is what it was made as (registrations elsewhere, clones and calls
+        leave a definition object alone)"""
+        for did, fd in sorted(self.fds.items()):
+            d = table_diff(fd, self.exp[did])
+            if d and not any(f == self.tag[did] for f, _ in self.table_fails):
+                self.table_fails.append((self.tag[did], ['after the history: ' + x for x in d]))
+
+    def _new_def(self, did, fid, fd, exp, conv):
+        self.conv[did] = conv
+        self.fds[did] = fd
+        self.exp[did] = exp
+        self.tag[did] = fid
+        self.by_tag.setdefault(fid, fd)
+        d = table_diff(fd, exp)
+        if d:
+            self.table_fails.append((fid, d))
+
+    def fname(self, did):
+        return self.defs[self.tag.get(did, did)].get('fname', 'f')
 
     def chain(self, i, name):
-        out = []
-        while i is not None:
-            out.append(([self.fds[f] for f in self.held[i] if self.fname(f) == name], name in self.excl[i]))
-            i = self.parent[i]
-        return out
+        return [([self.exp[d] for d in ids], x) for ids, x in self.rec.layers(i, name)]
 
     def view(self, i):
-        return _View(self.ctxs[i], self.fds)
+        return _View(self.ctxs[i], self.by_tag)
 
     def do(self, st):
         """one non-call step on the real contexts and in the record"""
         k = st[0]
         if k == 'root':
             self.ctxs.append(self.cls(self.base))
-            self.parent.append(None)
-            self.held.append([])
-            self.excl.append(set())
+            self.rec.root()
             self.msteps.append(dict(k='root'))
         elif k == 'child':
+            if not self.rec.can_child(st[1]):
+                return
             self.ctxs.append(self.ctxs[st[1]].create_child_context())
-            self.parent.append(st[1])
-            self.held.append([])
-            self.excl.append(set())
+            self.rec.child(st[1])
             self.msteps.append(dict(k='child', i=st[1]))
+        elif k == 'multi':
+            self.ctxs.append(contexts.MultiContext([self.ctxs[m] for m in st[1]]))
+            self.rec.multi(st[1])
+            self.msteps.append(dict(k='multi', ms=list(st[1])))
+        elif k == 'linked':
+            self.ctxs.append(contexts.LinkedContext(None if st[1] is None else self.ctxs[st[1]], self.ctxs[st[2]]))
+            self.rec.linked(st[1], st[2])
+            self.msteps.append(dict(k='linked', p=st[1], t=st[2]))
         elif k == 'reg':
             _, i, fid, x = st
             fd = self.fd(fid)
@@ -475,18 +991,35 @@ class History:
             except exceptions.InvalidMethodException:
                 self.invalid.append(fid)
                 return
-            if fid not in self.held[i]:
-                self.held[i].append(fid)
-            if x:
-                self.excl[i].add(self.fname(fid))
+            self.rec.register(i, self.fname(fid), fid, bool(x))
             self.msteps.append(dict(k='reg', i=i, name=self.fname(fid), fid=fid, x=bool(x)))
+        elif k == 'regc':
+            _, i, fid, x, did = st
+            o = self.defs[fid]
+            self.callable_of(fid)
+            conv = self.rec.write_conv(i)
+            exp = expected_fd(o, convention=conv)
+            try:
+                fd = register_callable(self.ctxs[i], self.callables[fid], name_arg(o), exp.name, bool(x))
+            except exceptions.InvalidMethodException:
+                self.invalid.append(fid)
+                return
+            if fd is None:
+                self.table_fails.append((fid, ['no new definition under the documented name %r after '
+                                               'register_function' % exp.name]))
+                return
+            self._new_def(did, fid, fd, exp, conv)
+            self.rec.register(i, exp.name, did, bool(x))
+            self.msteps.append(dict(k='reg', i=i, name=exp.name, fid=did, x=bool(x)))
         elif k == 'del':
-            _, i, fid = st
-            self.ctxs[i].delete_function(self.fd(fid))
-            if fid in self.held[i]:
-                self.held[i].remove(fid)
-            self.excl[i].discard(self.fname(fid))
-            self.msteps.append(dict(k='del', i=i, name=self.fname(fid), fid=fid))
+            _, i, did = st
+            if did not in self.fds:
+                if did not in self.defs:
+                    return
+                self.fd(did)
+            self.ctxs[i].delete_function(self.fds[did])
+            self.rec.delete(i, self.fname(did), did)
+            self.msteps.append(dict(k='del', i=i, name=self.fname(did), fid=did))
         else:
             raise ValueError(st)
 
@@ -497,12 +1030,16 @@ class History:
         real = run_real(v, call, name)
         exp = spec_resolve(v, call, name, chain=self.chain(i, name))
         if 'id' in exp:
-            exp['id'] = [f for f, fd in self.fds.items() if fd is exp['id']][0]
+            exp['id'] = exp['id'].tag
         self.msteps.append(dict(k='call', i=i, name=name, call=call.enc()))
         return real, exp
 
     def enc(self):
-        return dict(defs=[enc_fd(fd, fid) for fid, fd in sorted(self.fds.items())], steps=self.msteps)
+        return dict(defs=[enc_fd(fd, did) for did, fd in sorted(self.fds.items())], steps=self.msteps)
+
+    def sig_items(self):
+        """[(overload spec, made with the convention, the real definition)] for the model of get_function_definition"""
+        return [(self.defs[self.tag[did]], self.conv[did], fd) for did, fd in sorted(self.fds.items())]
 
 
 class _View:
@@ -620,6 +1157,9 @@ def real_bound(fd, loc, call):
                 out[p.name] = ['hid', 'context'] if isinstance(v, contexts.ContextBase) else ['hid', 'context-wrong']
             elif isinstance(p.value_type, yaqltypes.Engine):
                 out[p.name] = ['hid', 'engine'] if v is ENGINE else ['hid', 'engine-wrong']
+            elif isinstance(p.value_type, yaqltypes.YaqlInterface):
+                out[p.name] = ['hid', 'yaqlInterface'] if type(v).__name__ == 'YaqlInterface' \
+                    else ['hid', 'yaqlInterface-wrong']
             else:
                 out[p.name] = ['hid', '?']
         elif key == '*':
@@ -702,8 +1242,9 @@ def run_real(fam, call, name='f'):
 
 # ---------------------------------------------------------------- the written rules, transcribed independently
 # doc/source/extending_yaql.rst "Function resolution rules" + the property's "single most specific match".
-# Works on the raw state of the real objects (Context._functions / _exclusive_funcs / parent,
-# FunctionDefinition.parameters, ParameterDefinition fields) and asks the real smart types only
+# Works on the harness's own record of the registrations (which definitions each layer holds, which layers some
+# registration declared exclusive) and on the definitions the documented rules prescribe for the Python
+# callables (`expected_fd`: parameter table with position, default, alias, type), and asks the smart types only
 # `check` and `python_type`.  It does not share structure with map_args/get_delegate: binding is done
 # by lining the visible positional parameters up with the argument slots.
 
@@ -827,9 +1368,9 @@ def _is_lazy(t):
 
 def spec_resolve(fam, call, name='f', chain=None):
     """-> dict(err=..) | dict(id=.., log=[..]); `log` is None when the rules do not determine it.
-    `chain`: the contexts from the nearest outward as [(overloads registered under the name, exclusive)] when
-    the caller keeps its own record of what was registered (call histories); default: the raw state of the
-    real Context objects.  The result also carries `nmapped` / `nmatch` (candidates that passed rule 3 /
+    `chain`: the contexts from the nearest outward as [(definitions registered under the name, exclusive)] from
+    the caller's own record of what was registered (default: `fam.chain(name)`); a chosen overload is returned as
+    the definition object of that record.  The result also carries `nmapped` / `nmatch` (candidates that passed rule 3 /
     type-compatible candidates of the deciding layer) for the input statistics."""
     r = _spec_resolve(fam, call, name, chain)
     r.setdefault('nmapped', 0)
@@ -842,13 +1383,7 @@ def _spec_resolve(fam, call, name, chain):
     # rules 1, 2: layers, nearest first, stop behind an exclusive layer
     layers = []
     if chain is None:
-        chain = []
-        c = fam.ctx
-        while c is not None:
-            if not isinstance(c, contexts.Context):
-                break
-            chain.append((list(c._functions.get(name, ())), name in c._exclusive_funcs))
-            c = c.parent
+        chain = fam.chain(name)
     for registered, exclusive in chain:
         fns = [fd for fd in registered if (fd.is_method if method else fd.is_function)]
         if fns:
